@@ -1,4 +1,4 @@
--- PINNED by bin/pin_tables: copy of Gen/Coerce.lean as generated from /repo at e70f271 — regenerate, do not edit
+-- PINNED by bin/pin_tables: copy of Gen/Coerce.lean as generated from /repo at bf0bc58 — regenerate, do not edit
 import Ggql.Model.Coerce
 namespace Ggql.Pinned
 open Ggql.Coerce
@@ -45,10 +45,10 @@ def coerceOutBoolean : Table :=
   { arms := [(.bool, .asIs), (.f32, .neZero), (.i32, .neZero), (.nil, .asIs), (.str, .parseBoolKeep)],
     dflt := .failNil, formatTime := false }
 def coerceInTime : Table :=
-  { arms := [(.f64, .timeOfFloat), (.i64, .timeOfInt), (.nil, .asIs), (.str, .timeParseKeep), (.time, .asIs)],
+  { arms := [(.f64, .timeOfFloatChk), (.i64, .timeOfIntChk), (.nil, .asIs), (.str, .timeParseKeep), (.time, .asIs)],
     dflt := .failNil, formatTime := false }
 def coerceOutTime : Table :=
-  { arms := [(.f64, .timeOfFloat), (.i64, .timeOfInt), (.nil, .asIs), (.str, .timeParseKeep), (.time, .asIs)],
+  { arms := [(.f64, .timeOfFloatChk), (.i64, .timeOfIntChk), (.nil, .asIs), (.str, .timeParseKeep), (.time, .asIs)],
     dflt := .failNil, formatTime := true }
 /-- `resolve`, leaf branch: on a `CoerceOut` error the response value is set to nil -/
 def leafErrNulls : Bool := true
